@@ -50,7 +50,7 @@ def ensure_model():
 
 def snippet(p, aux=None):
     return ("cd /verif/harness && PYTHONPATH=/verif/harness:%s /venv/bin/python -B -c \"import grammar_impl as gi; "
-            "print(gi.observe(%s, %s)[0])\"" % (common.REPO, json.dumps(p), json.dumps(aux)))
+            "print(gi.observe(%s, %s)[0])\"" % (common.REPO, json.dumps(p), repr(aux)))
 
 
 # ====================================================================== generators
@@ -126,15 +126,16 @@ def gen_brute(rng, tier):
         [gi.BRUTE, [[10, [n]], [11, [adj(n, 1), s]]], [s], 3, 30],
         [gi.BRUTE, [[10, [n]], [11, [adj(n, 1), s, adj(n, -1)]]], [s], 4, 60],
         [gi.BRUTE, [[10, [s]]], [s], 0, 5], [gi.BRUTE, [[10, [s]]], [s], 2, 0],
-        [gi.BRUTE, [[10, [n]]], [s], 2, 25],
+        [gi.BRUTE, [[10, [n]]], [s], 2, 20],
         [gi.BRUTE, [[10, []]], [], 5, 9],
     ]
     pool = [[n], [s], [adj(n, 1), s], [adj(n, 1), s, adj(n, -1)], [s, adj(n, -1)], [adj(n, -1)],
             [n, adj(n, 1)], []]
     for _ in range(120 if tier == "quick" else 1500):
         vocab = [[10 + i, rng.choice(pool)] for i in range(rng.randint(0, 4))]
+        # sentences grow to m words when the vocabulary has one word: keep those short
         progs.append([gi.BRUTE, vocab, rng.choice([[s], [s], [], [n]]), rng.randint(0, 6),
-                      rng.randint(0, 80)])
+                      rng.randint(0, 60 if len(vocab) >= 2 else 20)])
     return progs
 
 
